@@ -206,7 +206,7 @@ def _optimize_multiplexed_angles_circuit(operations: Sequence[ops.Operation]):
     """
     circuit = cirq.Circuit(operations)
     circuit = cirq.transformers.drop_negligible_operations(circuit)
-    if np.allclose(circuit.unitary(), np.eye(8), atol=1e-14):
+    if np.allclose(circuit.unitary(), np.eye(8), rtol=0, atol=1e-14):
         return cirq.Circuit([])
 
     # the only way we can get identity here is if all four CZs are
